@@ -54,7 +54,7 @@ Section C07.
     mac_rejects enc mac_fn m packet (rf_max_payload rf) ->
     handle_event enc mac_fn (NWaitRx join rx1 rx2 w rf) m e NPhy (RaRxDone packet) =
     handle_event enc mac_fn (NWaitRx join rx1 rx2 w rf) m e NPhy RaRxing /\
-    (n_fault e <> Some (n_calls e) ->
+    (nfaulty e = false ->
      handle_event enc mac_fn (NWaitRx join rx1 rx2 w rf) m e NPhy (RaRxDone packet) =
      (NWaitRx join rx1 rx2 w rf, m, {| n_calls := n_calls e + 1; n_fault := n_fault e; n_trace := NcPhy :: n_trace e |}, NrNoUpdate)).
   Proof. exact (nb_rejected_frame_keeps_the_window_open enc mac_fn). Qed.
